@@ -4,6 +4,7 @@ package main
 
 import (
 	"fmt"
+	"sort"
 	"go/types"
 	"math/big"
 	"strings"
@@ -37,6 +38,7 @@ func (f *frame) setResults(x *ssa.Call, rs []sval) {
 
 func (f *frame) call(x *ssa.Call) {
 	c := x.Common()
+	f.siteAsserts(x)
 	rs := f.callCommon(c, x.Name(), false)
 	f.setResults(x, rs)
 }
@@ -505,7 +507,7 @@ func (f *frame) contractCall(fc *FuncContract, callee *ssa.Function, args []sval
 			t.cur.Assume(And(th.ALe(ot, t.allocTop()), th.ALt(t.allocTop(), th.AddrLit(addrLimit))))
 			oo := t.newTemp("preObj", t.objTop())
 			t.cur.Havoc(t.objTop())
-			t.cur.Assume(And(th.ALe(oo, t.objTop()), th.ALt(t.objTop(), th.AddrLit(1<<30))))
+			t.cur.Assume(And(th.ALe(oo, t.objTop()), th.ALt(t.objTop(), th.AddrLit(1<<16))))
 		}
 	}
 	// results
@@ -626,4 +628,54 @@ func (f *frame) dynamicCall(c *ssa.CallCommon) []sval {
 	_ = sig
 	fail("dynamic call of %s: no function-type contract", key)
 	return nil
+}
+
+// siteAsserts emits `assert φ @ call name#k` clauses in front of the k-th call (source order) to name.
+func (f *frame) siteAsserts(x *ssa.Call) {
+	t := f.t
+	if f.parent != nil || len(t.fc.Asserts) == 0 {
+		return
+	}
+	if t.callSites == nil {
+		t.callSites = map[ssa.Instruction]string{}
+		type ent struct {
+			in   ssa.Instruction
+			name string
+			pos  int
+		}
+		var all []ent
+		for _, b := range f.fn.Blocks {
+			for _, in := range b.Instrs {
+				if c, ok := in.(*ssa.Call); ok {
+					name := ""
+					if bi, ok := c.Call.Value.(*ssa.Builtin); ok {
+						name = bi.Name()
+					} else if callee := c.Call.StaticCallee(); callee != nil {
+						name = callee.Name()
+					} else if c.Call.IsInvoke() {
+						name = c.Call.Method.Name()
+					}
+					if name != "" {
+						all = append(all, ent{in, name, int(c.Pos())})
+					}
+				}
+			}
+		}
+		sort.SliceStable(all, func(i, j int) bool { return all[i].pos < all[j].pos })
+		cnt := map[string]int{}
+		for _, e := range all {
+			cnt[e.name]++
+			t.callSites[e.in] = fmt.Sprintf("call %s#%d", e.name, cnt[e.name])
+		}
+	}
+	site, ok := t.callSites[x]
+	if !ok {
+		return
+	}
+	for _, a := range t.fc.Asserts {
+		if a.Site == site {
+			t.usedAsserts[a.Label] = true
+			t.cur.Assert(f.specBool(a.E, f.bodyEnv(false)), "assert/"+a.Label, propsOr(a.Props, t.fc.Props))
+		}
+	}
 }
